@@ -334,6 +334,7 @@ def check(run: Run) -> None:
     run.rule("C08.R7", "dictionary literals are typed whenever their keys can be dataclass fields (shared with C07.R7 / C10.R3)")
     check_dict_typing(run, TermCtx(m, max_depth=1, opaque={"lookup_type", "remap_by_types"}), m, tt, "C08.R7")
     check_iterable_test(run, m, "C08.R12")
+    check_mro_walk(run, m, "C08.R14")
     check_nested_lambda_followed(run, m, tt, "C08.R13")
 
 
@@ -772,3 +773,31 @@ def check_nested_lambda_followed(run: Run, m, tt, rule: str) -> None:
             ty = a[1][1] if a[0] == "tuple" and len(a[1]) == 2 else a
             run.check(from_call(ty), rule, f, s, "the type handed back comes from the collection method's result", f"process_method_call_on_stream_obj hands back {show(ty)[:100]} without having called the collection method on the stand-in stream: the lambda given to the nested Select / Where / SelectMany is not followed (its body gets no types, its calls no defaults, its callbacks do not fire), and a non-boolean nested filter is no longer refused", "r = getattr(obj_type(..), name)(lambda, known_types=..); return call_node, Iterable[r.item_type]", show(a)[:300], key="nested operator result not from the collection method")
     run.floor(rule, n, 2, "results of process_method_call_on_stream_obj")
+
+
+def check_mro_walk(run: Run, m, rule: str) -> None:
+    """get_method_and_class walks the MRO to the class that *defines* the method: it starts at the object's class, moves on
+    while the attribute is the same object, and stops where it differs. A class on the way that does not have the
+    attribute at all (a mixin listed before the generic base, typing.Generic) says nothing about where the method is
+    defined: ending the walk there returns the subclass as "defining class", type variables are then resolved at the
+    wrong class and the declared return type is lost (class JetColl(Named, Coll[Jet]): get() -> T comes out as Any)."""
+    run.rule(rule, "the MRO walk of get_method_and_class is ended only by a class that has a *different* attribute of that name, not by one that has none")
+    fi = m.find_func("get_method_and_class", in_module="func_adl.util_types")
+    from ..lib import view
+
+    fv = view(m, fi)
+    fa = TermCtx(m, max_depth=1).analysis(fv)
+    loops = [n for n in own_nodes(fv) if isinstance(n, ast.For) and fa.cfg.has_node(n) and contains(strip_sites(fa.term_of(n.iter, fa.cfg.node_of(n))), lambda q: q[0] == "app" and q[1][0] == "global" and q[1][1].endswith("getmro") or (q[0] == "attr" and q[2] == "__mro__"))]
+    run.floor(rule, len(loops), 1, "MRO walks in get_method_and_class")
+    n = 0
+    for lp in loops:
+        for r in [x for x in ast.walk(lp) if isinstance(x, ast.Return) and x.value is not None and not (isinstance(x.value, ast.Constant) and x.value.value is None)]:
+            n += 1
+            knows = False
+            for a, pol in Facts(fa, r).atoms:
+                if isinstance(a, ast.Compare) and len(a.ops) == 1 and isinstance(a.ops[0], ast.Is) and isinstance(a.comparators[0], ast.Constant) and a.comparators[0].value is None and not pol and fa.cfg.has_node(a.left):
+                    t = strip_sites(fa.term_of(a.left))
+                    if t[0] == "app" and t[1] == ("global", "builtins.getattr") and len(t[2]) >= 2 and t[2][0][0] == "elem":
+                        knows = True  # this class's own attribute (not the one remembered from earlier classes)
+            run.check(knows, rule, fi, r, "the walk ends at a class whose attribute is there and differs", "the walk over the MRO ends at the first class whose attribute is not the method found so far - including a class that has no such attribute at all (a mixin, typing.Generic): for class JetColl(Named, Coll[Jet]) the 'defining class' of get() is reported as JetColl, its type variable T is resolved at the wrong class, and e.a().get() is typed Any instead of Jet", "if m is None: continue", key="MRO walk ended by a class without the attribute")
+    run.floor(rule, n, 1, "early returns of the MRO walk")
